@@ -1,6 +1,6 @@
 (* ApiSurfaceProofs.v — WHICH entry points the model and the correspondence speak about.  gen/ApiSurface.v is
    regenerated on every run from the non-test sources of the four library crates: every `pub fn`, every trait impl,
-   every exported macro.  `modelled_api` below is the list as it was when the model, the harness operations and
+   every exported macro (trait and type names without their module paths: an import is not an API change).  `modelled_api` below is the list as it was when the model, the harness operations and
    Appendix A of DESIGN.md were written against it.  The obligation: the two lists are equal.  A new public function
    (a mutator the history machine does not know), a new trait impl (an entry point the harness does not call), a
    derived impl replaced by a hand-written one (the row appears), a removed or renamed function - each breaks THIS theorem;
@@ -16,9 +16,9 @@ Definition modelled_api : list (string * string * string) := [
 ("unic-langid-impl/src/errors.rs", "impl", "Error for LanguageIdentifierError");
 ("unic-langid-impl/src/errors.rs", "impl", "From<ParserError> for LanguageIdentifierError");
 ("unic-langid-impl/src/lib.rs", "impl", "AsRef<LanguageIdentifier> for LanguageIdentifier");
+("unic-langid-impl/src/lib.rs", "impl", "Display for LanguageIdentifier");
 ("unic-langid-impl/src/lib.rs", "impl", "FromStr for LanguageIdentifier");
 ("unic-langid-impl/src/lib.rs", "impl", "PartialEq<&str> for LanguageIdentifier");
-("unic-langid-impl/src/lib.rs", "impl", "std::fmt::Display for LanguageIdentifier");
 ("unic-langid-impl/src/lib.rs", "pub-fn", "canonicalize");
 ("unic-langid-impl/src/lib.rs", "pub-fn", "character_direction");
 ("unic-langid-impl/src/lib.rs", "pub-fn", "clear_variants");
@@ -41,41 +41,41 @@ Definition modelled_api : list (string * string * string) := [
 ("unic-langid-impl/src/parser/mod.rs", "pub-fn", "parse_language_identifier_from_iter");
 ("unic-langid-impl/src/serde.rs", "impl", "Deserialize<'de> for LanguageIdentifier");
 ("unic-langid-impl/src/serde.rs", "impl", "Serialize for LanguageIdentifier");
-("unic-langid-impl/src/serde.rs", "impl", "serde::de::Visitor<'de> for LanguageIdentifierVisitor");
+("unic-langid-impl/src/serde.rs", "impl", "Visitor<'de> for LanguageIdentifierVisitor");
+("unic-langid-impl/src/subtags/language.rs", "impl", "Display for Language");
 ("unic-langid-impl/src/subtags/language.rs", "impl", "From<&Language> for Option<u64>");
 ("unic-langid-impl/src/subtags/language.rs", "impl", "From<Language> for Option<u64>");
 ("unic-langid-impl/src/subtags/language.rs", "impl", "FromStr for Language");
 ("unic-langid-impl/src/subtags/language.rs", "impl", "PartialEq<&str> for Language");
 ("unic-langid-impl/src/subtags/language.rs", "impl", "TryFrom<Option<T>> for Language");
-("unic-langid-impl/src/subtags/language.rs", "impl", "std::fmt::Display for Language");
 ("unic-langid-impl/src/subtags/language.rs", "pub-fn", "as_str");
 ("unic-langid-impl/src/subtags/language.rs", "pub-fn", "clear");
 ("unic-langid-impl/src/subtags/language.rs", "pub-fn", "from_bytes");
 ("unic-langid-impl/src/subtags/language.rs", "pub-fn", "from_raw_unchecked");
 ("unic-langid-impl/src/subtags/language.rs", "pub-fn", "is_empty");
 ("unic-langid-impl/src/subtags/language.rs", "pub-fn", "matches");
+("unic-langid-impl/src/subtags/region.rs", "impl", "Display for Region");
 ("unic-langid-impl/src/subtags/region.rs", "impl", "From<&'l Region> for &'l str");
 ("unic-langid-impl/src/subtags/region.rs", "impl", "From<Region> for u32");
 ("unic-langid-impl/src/subtags/region.rs", "impl", "FromStr for Region");
 ("unic-langid-impl/src/subtags/region.rs", "impl", "PartialEq<&str> for Region");
-("unic-langid-impl/src/subtags/region.rs", "impl", "std::fmt::Display for Region");
 ("unic-langid-impl/src/subtags/region.rs", "pub-fn", "as_str");
 ("unic-langid-impl/src/subtags/region.rs", "pub-fn", "from_bytes");
 ("unic-langid-impl/src/subtags/region.rs", "pub-fn", "from_raw_unchecked");
+("unic-langid-impl/src/subtags/script.rs", "impl", "Display for Script");
 ("unic-langid-impl/src/subtags/script.rs", "impl", "From<&'l Script> for &'l str");
 ("unic-langid-impl/src/subtags/script.rs", "impl", "From<Script> for u32");
 ("unic-langid-impl/src/subtags/script.rs", "impl", "FromStr for Script");
 ("unic-langid-impl/src/subtags/script.rs", "impl", "PartialEq<&str> for Script");
-("unic-langid-impl/src/subtags/script.rs", "impl", "std::fmt::Display for Script");
 ("unic-langid-impl/src/subtags/script.rs", "pub-fn", "as_str");
 ("unic-langid-impl/src/subtags/script.rs", "pub-fn", "from_bytes");
 ("unic-langid-impl/src/subtags/script.rs", "pub-fn", "from_raw_unchecked");
+("unic-langid-impl/src/subtags/variant.rs", "impl", "Display for Variant");
 ("unic-langid-impl/src/subtags/variant.rs", "impl", "From<&Variant> for u64");
 ("unic-langid-impl/src/subtags/variant.rs", "impl", "From<Variant> for u64");
 ("unic-langid-impl/src/subtags/variant.rs", "impl", "FromStr for Variant");
 ("unic-langid-impl/src/subtags/variant.rs", "impl", "PartialEq<&str> for Variant");
 ("unic-langid-impl/src/subtags/variant.rs", "impl", "PartialEq<str> for Variant");
-("unic-langid-impl/src/subtags/variant.rs", "impl", "std::fmt::Display for Variant");
 ("unic-langid-impl/src/subtags/variant.rs", "pub-fn", "as_str");
 ("unic-langid-impl/src/subtags/variant.rs", "pub-fn", "from_bytes");
 ("unic-langid-impl/src/subtags/variant.rs", "pub-fn", "from_raw_unchecked");
@@ -85,20 +85,20 @@ Definition modelled_api : list (string * string * string) := [
 ("unic-locale-impl/src/errors.rs", "impl", "Error for LocaleError");
 ("unic-locale-impl/src/errors.rs", "impl", "From<LanguageIdentifierError> for LocaleError");
 ("unic-locale-impl/src/errors.rs", "impl", "From<ParserError> for LocaleError");
+("unic-locale-impl/src/extensions/mod.rs", "impl", "Display for ExtensionType");
+("unic-locale-impl/src/extensions/mod.rs", "impl", "Display for ExtensionsMap");
 ("unic-locale-impl/src/extensions/mod.rs", "impl", "FromStr for ExtensionsMap");
-("unic-locale-impl/src/extensions/mod.rs", "impl", "std::fmt::Display for ExtensionType");
-("unic-locale-impl/src/extensions/mod.rs", "impl", "std::fmt::Display for ExtensionsMap");
 ("unic-locale-impl/src/extensions/mod.rs", "pub-fn", "from_byte");
 ("unic-locale-impl/src/extensions/mod.rs", "pub-fn", "from_bytes");
 ("unic-locale-impl/src/extensions/mod.rs", "pub-fn", "is_empty");
-("unic-locale-impl/src/extensions/private.rs", "impl", "std::fmt::Display for PrivateExtensionList");
+("unic-locale-impl/src/extensions/private.rs", "impl", "Display for PrivateExtensionList");
 ("unic-locale-impl/src/extensions/private.rs", "pub-fn", "add_tag");
 ("unic-locale-impl/src/extensions/private.rs", "pub-fn", "clear_tags");
 ("unic-locale-impl/src/extensions/private.rs", "pub-fn", "has_tag");
 ("unic-locale-impl/src/extensions/private.rs", "pub-fn", "is_empty");
 ("unic-locale-impl/src/extensions/private.rs", "pub-fn", "remove_tag");
 ("unic-locale-impl/src/extensions/private.rs", "pub-fn", "tags");
-("unic-locale-impl/src/extensions/transform.rs", "impl", "std::fmt::Display for TransformExtensionList");
+("unic-locale-impl/src/extensions/transform.rs", "impl", "Display for TransformExtensionList");
 ("unic-locale-impl/src/extensions/transform.rs", "pub-fn", "clear_tfields");
 ("unic-locale-impl/src/extensions/transform.rs", "pub-fn", "clear_tlang");
 ("unic-locale-impl/src/extensions/transform.rs", "pub-fn", "is_empty");
@@ -108,7 +108,7 @@ Definition modelled_api : list (string * string * string) := [
 ("unic-locale-impl/src/extensions/transform.rs", "pub-fn", "tfield");
 ("unic-locale-impl/src/extensions/transform.rs", "pub-fn", "tfield_keys");
 ("unic-locale-impl/src/extensions/transform.rs", "pub-fn", "tlang");
-("unic-locale-impl/src/extensions/unicode.rs", "impl", "std::fmt::Display for UnicodeExtensionList");
+("unic-locale-impl/src/extensions/unicode.rs", "impl", "Display for UnicodeExtensionList");
 ("unic-locale-impl/src/extensions/unicode.rs", "pub-fn", "attributes");
 ("unic-locale-impl/src/extensions/unicode.rs", "pub-fn", "clear_attributes");
 ("unic-locale-impl/src/extensions/unicode.rs", "pub-fn", "clear_keywords");
@@ -122,10 +122,10 @@ Definition modelled_api : list (string * string * string) := [
 ("unic-locale-impl/src/extensions/unicode.rs", "pub-fn", "set_keyword");
 ("unic-locale-impl/src/lib.rs", "impl", "AsRef<LanguageIdentifier> for Locale");
 ("unic-locale-impl/src/lib.rs", "impl", "AsRef<Locale> for Locale");
+("unic-locale-impl/src/lib.rs", "impl", "Display for Locale");
 ("unic-locale-impl/src/lib.rs", "impl", "From<LanguageIdentifier> for Locale");
 ("unic-locale-impl/src/lib.rs", "impl", "From<Locale> for LanguageIdentifier");
 ("unic-locale-impl/src/lib.rs", "impl", "FromStr for Locale");
-("unic-locale-impl/src/lib.rs", "impl", "std::fmt::Display for Locale");
 ("unic-locale-impl/src/lib.rs", "pub-fn", "canonicalize");
 ("unic-locale-impl/src/lib.rs", "pub-fn", "from_bytes");
 ("unic-locale-impl/src/lib.rs", "pub-fn", "from_parts");
